@@ -248,9 +248,20 @@ impl<'a, 'bases, R: Reader> EhHdrTableIter<'a, 'bases, R> {
         };
 
         self.remain -= 1;
-        let from = parse_encoded_pointer(self.hdr.table_enc, &parameters, &mut self.table)?;
-        let to = parse_encoded_pointer(self.hdr.table_enc, &parameters, &mut self.table)?;
-        Ok(Some((from, to)))
+        let mut parse = || -> Result<(Pointer, Pointer)> {
+            let from = parse_encoded_pointer(self.hdr.table_enc, &parameters, &mut self.table)?;
+            let to = parse_encoded_pointer(self.hdr.table_enc, &parameters, &mut self.table)?;
+            Ok((from, to))
+        };
+        match parse() {
+            Ok(row) => Ok(Some(row)),
+            Err(e) => {
+                // The table is truncated or cannot be decoded, so all following
+                // rows would fail too. Don't trust the remaining count.
+                self.remain = 0;
+                Err(e)
+            }
+        }
     }
     /// Yield the nth entry in the `EhHdrTableIter`
     pub fn nth(&mut self, n: usize) -> Result<Option<(Pointer, Pointer)>> {
